@@ -401,3 +401,799 @@ def u_poly_number(U):
 @unit('tensors.poly.list_shift', props=('C19', 'C11'))
 def u_poly_list(U):
     _poly_unit(U, 'list')
+
+
+# ----------------------------------------------------------------------------------------------
+# tensors.rand_custom  (C19: "random constructors return well-formed tensors of the requested shape and rank profile (scalar or
+# per-bond ranks)", mechanism "one flat random vector cut into Fortran-ordered cores";  C10: one call of the sampler)
+#
+# Proved for every d >= 1, mode sizes >= 1, a scalar rank >= 1 or a rank list of length d + 1 with entries >= 1:
+#   * the sampler f is called exactly once, with the total number of entries  sum_k n_k r_k r_{k+1}  (products in the engine's
+#     abstraction mulI);  * core k is the Fortran-order reshape of the block of the sample that starts at  sum_{j<k} n_j r_j r_{j+1},
+#     has shape (r_k, n_k, r_{k+1});  * the tensor is well-formed when r_0 = r_d = 1;  * no slice / reshape can fail;
+#   * the argument lists are not modified.
+# Not covered: the default sampler np.random.randn (global generator - flagged by frames / C10), entries of the cores as numbers
+# beyond "block of the sample in F order" (fcut is an uninterpreted constructor with shape axioms only).
+
+AXR = T.axioms('shape', 'mulI', 'fcut')
+
+
+def flat_sampler(name='f'):
+    """A sampling callback: returns a fresh float vector of the requested length and logs the call."""
+    def handler(ex, st, args, kwargs, node):
+        if kwargs or len(args) != 1:
+            raise M.Unsupported('sampler called with other than one positional argument')
+        size = args[0]
+        ex.oblige(st, 'call-pre', 'sampler-is-asked-for-a-non-negative-integer-count', z3.And(z3.BoolVal(M.is_intsort(size)), Z(size) >= 0)
+                  if M.is_num(size) else False, node)
+        out = X.rvec(size, ex.fresh('sample', RA))
+        st.ghost['fcalls'] = st.ghost.get('fcalls', []) + [(size, out.t)]
+        return out
+    return VFunc(name, handler)
+
+
+def _rank_args(st, rkind, d):
+    """(value of the parameter r, spec function of the rank profile r_0..r_d, preconditions)."""
+    if rkind == 'number':
+        r0 = z3.Int('r')
+        return r0, (lambda k: z3.If(z3.Or(k == 0, k == d), 1, r0)), [r0 >= 1], None
+    if rkind == 'float':
+        r0 = z3.Real('r')
+        return r0, (lambda k: z3.If(z3.Or(k == 0, k == d), 1, trunc(r0))), [r0 >= 1], None
+    rl = z3.Const('rlist', T.IDX)
+    ref = st.alloc(VSeq(rl, d + 1, lambda x: x, tag='int'))
+    return ref, (lambda k: rl[k]), [z3.ForAll([tt], z3.Implies(z3.And(0 <= tt, tt <= d), rl[tt] >= 1), patterns=[rl[tt]])], rl
+
+
+def _tsize(narr, rk, d):
+    """tsize(k) = sum_{j<k} n_j r_j r_{j+1}: spec function defined by recursion (two-variable pattern)."""
+    ts = z3.Function('tsize', z3.IntSort(), z3.IntSort())
+    k_, k2_ = z3.Ints('k!c k2!c')
+    return ts, [ts(0) == 0,
+                z3.ForAll([k_, k2_], z3.Implies(z3.And(k_ >= 0, k2_ == k_ + 1), ts(k2_) == ts(k_) + T.mul_canon(narr[k_], rk(k_), rk(k2_))),
+                          patterns=[z3.MultiPattern(ts(k_), ts(k2_))])]
+
+
+def _rand_custom_unit(U, rkind):
+    d = z3.Int('d')
+    narr = z3.Const('n', T.IDX)
+    t = z3.Int('t!r')
+
+    def inv(ex, s, i):
+        Ys = s.deref(s.vars['Y'])
+        cores, ps, r, n = s.vars['cores'], s.vars['ps'], s.vars['r'], s.vars['n']
+        if not (X.is_vec1(cores) and X.is_vec1(ps) and X.is_vec1(r) and X.is_vec1(n)):
+            raise M.ContractMismatch('rand_custom: cores / ps / r / n are not vectors with a denotation')
+        return [('length', Ys.n == i),
+                ('finished-cores-are-the-F-ordered-blocks-of-the-sample',
+                 z3.ForAll([t], z3.Implies(z3.And(0 <= t, t < i), Ys.arr[t] == X.fcut(cores.t, ps.t[t] - 1, r.t[t], n.t[t], r.t[t + 1])),
+                           patterns=[Ys.arr[t]]))]
+
+    fn = U.func('tensors', 'rand_custom')
+    ex = U.executor(fn, loops={0: {'inv': inv}}, axioms=AXR, type_hints={'Y': 'tt'})
+    ex.mode = 'ematch'
+    st = U.state()
+    rv, rk, rpre, rl = _rank_args(st, rkind, d)
+    nref = st.alloc(VSeq(narr, d, lambda x: x, tag='int'))
+    st.vars.update(n=nref, r=rv, f=flat_sampler())
+    sizes = z3.ForAll([t], z3.Implies(z3.And(0 <= t, t < d), narr[t] >= 1), patterns=[narr[t]])
+    res = U.run(ex, st, pre=[d >= 1, sizes] + rpre)
+    U.cover('precondition-satisfiable', U.pre, axioms=AXR)
+    ts, tdef = _tsize(narr, rk, d)
+    for p, o in res:
+        if o.kind != 'return':
+            U.post('no-exception', p, False, axioms=AXR, mode='ematch')
+            continue
+        Ys = p.deref(o.value)
+        R_ = Ys.arr
+        cores, ps, r, n = p.vars['cores'], p.vars['ps'], p.vars['r'], p.vars['n']
+        calls = p.ghost.get('fcalls', [])
+        U.post('sampler-called-exactly-once', p, z3.BoolVal(len(calls) == 1))
+        if len(calls) != 1:
+            continue
+        total, flat = calls[0]
+        U.post('the-cores-are-cut-from-that-one-sample', p, z3.BoolVal(cores.t is flat))
+        U.post('argument-lists-are-not-modified', p, z3.BoolVal(p.heap[nref.oid].arr is narr and p.heap[nref.oid].n is d and
+                                                                (rl is None or (p.heap[rv.oid].arr is rl))))
+        U.post('d-cores', p, Ys.n == d, axioms=AXR, mode='ematch')
+        U.post('rank-profile-is-the-requested-one (scalar: 1, r, .., r, 1)', p, z3.Implies(z3.And(0 <= tt, tt <= d), r.t[tt] == rk(tt)), axioms=AXR, mode='ematch')
+        U.post('mode-sizes-are-the-requested-ones', p, z3.Implies(z3.And(0 <= tt, tt < d), n.t[tt] == narr[tt]), axioms=AXR, mode='ematch')
+        U.post('core-k-has-shape-(r_k, n_k, r_k+1)', p,
+               z3.Implies(z3.And(0 <= tt, tt < d), z3.And(T.d0(R_[tt]) == rk(tt), T.d1(R_[tt]) == narr[tt], T.d2(R_[tt]) == rk(tt + 1))), axioms=AXR, mode='ematch')
+        shapes = z3.ForAll([t], z3.Implies(z3.And(0 <= t, t < d), z3.And(T.d0(R_[t]) == rk(t), T.d1(R_[t]) == narr[t], T.d2(R_[t]) == rk(t + 1))),
+                           patterns=[R_[t]])
+        U.post('well-formed-when-the-boundary-ranks-are-1', list(U.pre) + [shapes, Ys.n == d, d >= 2, rk(z3.IntVal(0)) == 1, rk(d) == 1],
+               T.wf(R_, d), axioms=AXR, mode='ematch')
+        # lemma: the cumulative offsets of the code are 1 + tsize(k)
+        L = lambda k: ps.t[k] == 1 + ts(k)
+        U.lemma('offsets-are-1+partial-sums-of-the-core-sizes.base', list(p.pc) + tdef, L(z3.IntVal(0)), axioms=AXR, kind='lemma-base')
+        U.lemma('offsets-are-1+partial-sums-of-the-core-sizes.step', list(p.pc) + tdef + [kk >= 0, kk < d, L(kk)], L(kk + 1), axioms=AXR, kind='lemma-step')
+        lem = z3.ForAll([kk], z3.Implies(z3.And(0 <= kk, kk <= d), L(kk)), patterns=[ps.t[kk]])
+        U.post('sampler-is-asked-for-the-total-number-of-entries: sum_k n_k r_k r_k+1', list(p.pc) + tdef + [lem], Z(total) == ts(d), axioms=AXR, mode='ematch')
+        U.post('core-k-is-the-F-ordered-block-that-starts-after-the-entries-of-the-cores-before-it', list(p.pc) + tdef + [lem],
+               z3.Implies(z3.And(0 <= tt, tt < d), R_[tt] == X.fcut(flat, ts(tt), rk(tt), narr[tt], rk(tt + 1))), axioms=AXR, mode='ematch')
+        U.canary('canary-no-entries-are-drawn', list(p.pc) + tdef + [lem], Z(total) == 0, axioms=AXR)
+
+
+for _rk in ('number', 'float', 'list'):
+    def _mk(rk=_rk):
+        @unit(f'tensors.rand_custom.{rk}', props=('C19', 'C11', 'C10'))
+        def u(U):
+            _rand_custom_unit(U, rk)
+    _mk()
+
+
+# ----------------------------------------------------------------------------------------------
+# call-site contracts used by rand / rand_norm
+
+def logging_rand(ex, st, args, kwargs, node):
+    """utils._rand by its contract (unit utils._rand): a Generator object is used as it is, None / an int give the generator
+    seeded with that value.  Every call is logged (C10: the seed has to go through _rand exactly once)."""
+    seed = args[0] if args else kwargs.get('seed', NONE)
+    g = seed if isinstance(seed, R.VGen) else R.VGen(('_rand', seed))
+    st.ghost['randcalls'] = st.ghost.get('randcalls', []) + [(seed, g)]
+    return g
+
+
+def call_rand_custom(ex, st, args, kwargs, node):
+    """tensors.rand_custom(n, r, f) by what the units tensors.rand_custom.* prove."""
+    if kwargs or len(args) != 3 or not isinstance(args[2], VFunc):
+        raise M.Unsupported('rand_custom call-site contract: rand_custom(n, r, f) with a callable f')
+    n, r, f = st.deref(args[0]), st.deref(args[1]), args[2]
+    if not (isinstance(n, VSeq) and n.tag == 'int'):
+        raise M.Unsupported('rand_custom call-site contract: n must be a list of integers')
+    d, narr = n.n, n.arr
+    k = z3.Int('k!rc')
+    ex.oblige(st, 'call-pre', 'rand_custom: at least one mode, all mode sizes >= 1',
+              z3.And(d >= 1, z3.ForAll([k], z3.Implies(z3.And(0 <= k, k < d), narr[k] >= 1), patterns=[narr[k]])), node)
+    if M.is_num(r):
+        rr = Z(r) if M.is_intsort(r) else trunc(Z(r))
+        ex.oblige(st, 'call-pre', 'rand_custom: scalar rank >= 1', Z(r) >= 1, node)
+        rk = lambda j: z3.If(z3.Or(j == 0, j == d), 1, rr)
+    elif isinstance(r, VSeq) and r.tag == 'int':
+        ex.oblige(st, 'call-pre', 'rand_custom: rank list of length d + 1 with entries >= 1',
+                  z3.And(r.n == d + 1, z3.ForAll([k], z3.Implies(z3.And(0 <= k, k <= d), r.arr[k] >= 1), patterns=[r.arr[k]])), node)
+        rk = lambda j, a=r.arr: a[j]
+    else:
+        raise M.Unsupported('rand_custom call-site contract: r must be a number or a list of integers')
+    ts, tdef = _tsize(narr, rk, d)
+    st.assume(*tdef)
+    total = ex.fresh_int('total')
+    st.assume(total == ts(d), total >= 0)
+    before = len(st.ghost.get('fcalls_rc', []))
+    sample = st.deref(f.handler(ex, st, [total], {}, node))           # the one call of the sampler
+    if not (X.is_vec1(sample) and sample.tag == 'rvec'):
+        raise M.Unsupported('rand_custom call-site contract: the sampler must return a float vector')
+    ex.oblige(st, 'call-pre', 'rand_custom: the sampler returns as many values as it was asked for', Z(sample.shape[0]) == total, node)
+    Rn = ex.fresh('Yrc', T.TT)
+    st.assume(z3.ForAll([k], z3.Implies(z3.And(0 <= k, k < d), Rn[k] == X.fcut(sample.t, ts(k), rk(k), narr[k], rk(k + 1))), patterns=[Rn[k]]))
+    st.ghost['rand_custom'] = st.ghost.get('rand_custom', []) + [dict(total=total, ts=ts, rk=rk, d=d, narr=narr, sample=sample.t, R=Rn)]
+    return st.alloc(VSeq(Rn, d, M.mk_core, tag='core'))
+
+
+# ----------------------------------------------------------------------------------------------
+# tensors.rand / tensors.rand_norm  (C19 random constructors; C10: "given a generator object it draws from that object only",
+# same seed -> same sequence of draws)
+#
+# Proved for seed = None / int / Generator object: _rand is called exactly once, with the seed argument itself; exactly one draw
+# is made, from the generator that _rand returned, by uniform(a, b) resp. normal(m, s) with the parameters in this order and
+# size = total number of entries (so the draw sequence is a function of the arguments alone); the result is the tensor that
+# rand_custom cuts from this draw: d cores of shape (r_k, n_k, r_k+1), well-formed for boundary ranks 1; uniform entries lie in
+# [a, b] (model-table fact about Generator.uniform); n and r are not modified.
+# Not covered: the distribution itself (bounded suite C19 / C14 statistics).
+
+def _rand_unit(U, fname, method_, pnames, rkind, skind):
+    d = z3.Int('d')
+    narr = z3.Const('n', T.IDX)
+    t = z3.Int('t!r')
+    fn = U.func('tensors', fname)
+    ex = U.executor(fn, axioms=AXR, callees={'utils._rand': logging_rand, 'tensors.rand_custom': call_rand_custom})
+    ex.mode = 'ematch'
+    st = U.state()
+    rv, rk, rpre, rl = _rank_args(st, rkind, d)
+    nref = st.alloc(VSeq(narr, d, lambda x: x, tag='int'))
+    seed = {'int': z3.Int('seed'), 'none': NONE, 'generator': R.VGen('caller')}[skind]
+    p0, p1 = z3.Real(pnames[0]), z3.Real(pnames[1])
+    st.vars.update({'n': nref, 'r': rv, pnames[0]: p0, pnames[1]: p1, 'seed': seed})
+    sizes = z3.ForAll([t], z3.Implies(z3.And(0 <= t, t < d), narr[t] >= 1), patterns=[narr[t]])
+    res = U.run(ex, st, pre=[d >= 1, sizes] + rpre)
+    U.assumed.extend(['utils._rand (unit utils._rand)', 'tensors.rand_custom (units tensors.rand_custom.*)'])
+    U.cover('precondition-satisfiable', U.pre, axioms=AXR)
+    for p, o in res:
+        if o.kind != 'return':
+            U.post('no-exception', p, False, axioms=AXR, mode='ematch')
+            continue
+        rc, log, rcalls = p.ghost.get('rand_custom', []), p.ghost.get('drawlog', []), p.ghost.get('randcalls', [])
+        U.post('seed-goes-through-_rand-exactly-once', p, z3.BoolVal(len(rcalls) == 1 and rcalls[0][0] is seed))
+        U.post('exactly-one-draw', p, z3.BoolVal(len(log) == 1))
+        U.post('result-is-built-by-one-call-of-rand_custom', p, z3.BoolVal(len(rc) == 1 and isinstance(o.value, VRef)))
+        if not (len(rcalls) == 1 and len(log) == 1 and len(rc) == 1 and isinstance(o.value, VRef)):
+            continue
+        g, dr, c = rcalls[0][1], log[0], rc[0]
+        Ys = p.deref(o.value)
+        if skind == 'generator':
+            U.post('a-generator-object-is-used-as-it-is', p, z3.BoolVal(g is seed))
+        U.post('the-draw-comes-from-the-generator-returned-by-_rand', p, z3.BoolVal(dr['gen'] is g))
+        U.post(f'the-draw-is-{method_}-with-the-parameters-in-the-documented-order', p,
+               z3.And(z3.BoolVal(dr['method'] == method_), dr['params'][0] == p0, dr['params'][1] == p1))
+        U.post('the-draw-has-as-many-values-as-the-tensor-has-entries: sum_k n_k r_k r_k+1', p,
+               z3.And(z3.BoolVal(len(dr['shape']) == 1), Z(dr['shape'][0]) == c['ts'](d)), axioms=AXR, mode='ematch')
+        U.post('the-cores-are-cut-from-that-draw', p, z3.BoolVal(c['sample'] is dr['out'] and Ys.arr is c['R']))
+        U.post('d-cores', p, Ys.n == d, axioms=AXR, mode='ematch')
+        U.post('core-k-has-shape-(r_k, n_k, r_k+1)', p,
+               z3.Implies(z3.And(0 <= tt, tt < d), z3.And(T.d0(Ys.arr[tt]) == rk(tt), T.d1(Ys.arr[tt]) == narr[tt], T.d2(Ys.arr[tt]) == rk(tt + 1))),
+               axioms=AXR, mode='ematch')
+        shapes = z3.ForAll([t], z3.Implies(z3.And(0 <= t, t < d), z3.And(T.d0(Ys.arr[t]) == rk(t), T.d1(Ys.arr[t]) == narr[t], T.d2(Ys.arr[t]) == rk(t + 1))),
+                           patterns=[Ys.arr[t]])
+        U.post('well-formed-when-the-boundary-ranks-are-1', list(U.pre) + [shapes, d >= 2, rk(z3.IntVal(0)) == 1, rk(d) == 1], T.wf(Ys.arr, d),
+               axioms=AXR, mode='ematch')
+        if method_ == 'uniform':
+            U.post('entries-of-the-sample-lie-in-[a,b]', p, z3.Implies(p0 <= p1, z3.And(p0 <= dr['out'][tt], dr['out'][tt] <= p1)), axioms=AXR, mode='ematch')
+        U.post('argument-lists-are-not-modified', p, z3.BoolVal(p.heap[nref.oid].arr is narr and p.heap[nref.oid].n is d and
+                                                                (rl is None or (p.heap[rv.oid].arr is rl))))
+        U.canary('canary-nothing-is-drawn', p, Z(dr['shape'][0]) == 0, axioms=AXR)
+
+
+for _fn, _me, _pn in (('rand', 'uniform', ('a', 'b')), ('rand_norm', 'normal', ('m', 's'))):
+    for _rk in ('number', 'list'):
+        for _sk in ('int', 'none', 'generator'):
+            def _mk(fn=_fn, me=_me, pn=_pn, rk=_rk, sk=_sk):
+                @unit(f'tensors.{fn}.{rk}.seed_{sk}', props=('C19', 'C10', 'C11'))
+                def u(U):
+                    _rand_unit(U, fn, me, pn, rk, sk)
+            _mk()
+
+
+# ----------------------------------------------------------------------------------------------
+# tensors.rand_stab  (C19: "the stable random tensor is the all-ones tensor perturbed by the requested noise";  C10 / C11)
+#
+# Proved for every d >= 1, mode sizes >= 1, scalar rank >= 1 or rank list (length d + 1, entries >= 1), seed None / int / Generator:
+#   * _rand is called once with the seed; core k is produced by draw number k of that generator: normal(0, noise) of shape
+#     (r_k, n_k, r_k+1) - one draw per core, in the order of the cores (C10);
+#   * every slice of core k is  (slice of that draw) + np.eye(r_k, r_k+1);  d cores, well-formed for boundary ranks 1 (C11);
+#   * the noise-free part (slices np.eye(r_k, r_k+1)) is the all-ones tensor: chain of rectangular identities 1 x r .. r x 1 = [[1]]
+#     (lemma by induction, theory group 'eyer');  * n and r are not modified.
+# Not covered: the size of the perturbation of the entries (products of noise terms; bounded suite C19), the distribution.
+
+AXS = T.axioms('shape', 'mulI', 'small', 'eyer', 'chain')
+
+
+def _rand_stab_unit(U, rkind, skind):
+    d = z3.Int('d')
+    narr = z3.Const('n', T.IDX)
+    noise = z3.Real('noise')
+    t, q_ = z3.Ints('t!s q!s')
+    seed = {'int': z3.Int('seed'), 'none': NONE, 'generator': R.VGen('caller')}[skind]
+    state = {}
+
+    def gen_of(s):
+        g = s.vars['rand']
+        if not isinstance(g, R.VGen):
+            raise M.ContractMismatch('rand_stab: `rand` is not a generator')
+        return g
+
+    def slices_ok(c, k, gid, rk, upto=None):
+        """slices q < upto of the core c are draw + identity, the others are still the draw (upto=None: all are finished)"""
+        N = X.drawc(gid, k)
+        E = X.eyer(rk(k), rk(k + 1))
+        body = T.sl(c, q_) == (T.madd(T.sl(N, q_), E) if upto is None else z3.If(q_ < upto, T.madd(T.sl(N, q_), E), T.sl(N, q_)))
+        return z3.Implies(z3.And(0 <= q_, q_ < narr[k]), body)
+
+    def dims(c, k, rk):
+        return z3.And(T.d0(c) == rk(k), T.d1(c) == narr[k], T.d2(c) == rk(k + 1))
+
+    def rk_of(s):
+        r = s.vars['r']
+        if not (X.is_vec1(r) and r.tag == 'ivec'):
+            raise M.ContractMismatch('rand_stab: r is not an integer vector')
+        return lambda k: r.t[k]
+
+    def inv_outer(ex, s, j):
+        Ys = s.deref(s.vars['Y'])
+        gid, rk = X.gen_id(gen_of(s)), rk_of(s)
+        return [('length', Ys.n == j),
+                ('one-draw-per-finished-core', Z(s.ghost.get('ndraw', z3.IntVal(0))) == j),
+                ('finished-cores-have-the-requested-shape', z3.ForAll([t], z3.Implies(z3.And(0 <= t, t < j), dims(Ys.arr[t], t, rk)), patterns=[Ys.arr[t]])),
+                ('finished-cores-are-their-draw-plus-identity-slices',
+                 z3.ForAll([t, q_], z3.Implies(z3.And(0 <= t, t < j), slices_ok(Ys.arr[t], t, gid, rk)), patterns=[T.sl(Ys.arr[t], q_)]))]
+
+    def havoc_outer(ex, h, pre, j):
+        h.ghost['ndraw'] = ex.fresh_int('ndraw')
+        h.ghost['drawlog'] = []
+
+    def body_end(ex, s, o, j):
+        log = s.ghost.get('drawlog', [])
+        g, rk = gen_of(s), rk_of(s)
+        ok = len(log) == 1 and log[0]['gen'] is g and log[0]['method'] == 'normal' and len(log[0]['shape']) == 3
+        ex.oblige(s, 'post', 'each-core-takes-exactly-one-normal-draw-from-the-seeded-generator', z3.BoolVal(ok), None, assume=False)
+        if ok:
+            dr = log[0]
+            ex.oblige(s, 'post', 'the-draw-is-normal(0, noise)-of-the-shape-of-the-core',
+                      z3.And(dr['params'][0] == 0, dr['params'][1] == noise, Z(dr['shape'][0]) == rk(j), Z(dr['shape'][1]) == narr[j],
+                             Z(dr['shape'][2]) == rk(j + 1)), None, assume=False)
+            ex.oblige(s, 'post', 'core-k-uses-draw-number-k (fixed order of the draws)', dr['idx'] == j, None, assume=False)
+
+    def inv_inner(ex, s, p_):
+        G = s.vars['G']
+        if not (isinstance(G, VArr) and G.tag == 'core' and G.t is not None):
+            raise M.ContractMismatch('rand_stab: G is not a 3-D core inside the slice loop')
+        k = s.ghost['_j0']
+        gid, rk = X.gen_id(gen_of(s)), rk_of(s)
+        return [('core-keeps-its-shape', dims(G.t, k, rk)),
+                ('slices-before-p-are-draw-plus-identity-the-others-still-the-draw',
+                 z3.ForAll([q_], slices_ok(G.t, k, gid, rk, upto=p_), patterns=[T.sl(G.t, q_)]))]
+
+    fn = U.func('tensors', 'rand_stab')
+    ex = U.executor(fn, loops={0: {'inv': inv_outer, 'havoc_hook': havoc_outer, 'body_end': body_end}, 1: {'inv': inv_inner}}, axioms=AXS,
+                    type_hints={'Y': 'tt'}, callees={'utils._rand': logging_rand})
+    ex.mode = 'ematch'
+    st = U.state()
+    rv, rk0, rpre, rl = _rank_args(st, rkind, d)
+    nref = st.alloc(VSeq(narr, d, lambda x: x, tag='int'))
+    st.vars.update(n=nref, r=rv, noise=noise, seed=seed)
+    sizes = z3.ForAll([t], z3.Implies(z3.And(0 <= t, t < d), narr[t] >= 1), patterns=[narr[t]])
+    res = U.run(ex, st, pre=[d >= 1, sizes] + rpre)
+    U.assumed.append('utils._rand (unit utils._rand)')
+    U.cover('precondition-satisfiable', U.pre, axioms=AXS)
+    for p, o in res:
+        if o.kind != 'return':
+            U.post('no-exception', p, False, axioms=AXS, mode='ematch')
+            continue
+        rcalls = p.ghost.get('randcalls', [])
+        U.post('seed-goes-through-_rand-exactly-once', p, z3.BoolVal(len(rcalls) == 1 and rcalls[0][0] is seed))
+        if len(rcalls) != 1:
+            continue
+        g = rcalls[0][1]
+        U.post('all-draws-come-from-the-generator-returned-by-_rand', p, z3.BoolVal(p.vars.get('rand') is g))
+        if skind == 'generator':
+            U.post('a-generator-object-is-used-as-it-is', p, z3.BoolVal(g is seed))
+        Ys = p.deref(o.value)
+        R_ = Ys.arr
+        rk = rk_of(p)
+        gid = X.gen_id(g)
+        U.post('d-cores', p, Ys.n == d, axioms=AXS, mode='ematch')
+        U.post('exactly-d-draws', p, Z(p.ghost.get('ndraw', z3.IntVal(0))) == d, axioms=AXS, mode='ematch')
+        U.post('rank-profile-is-the-requested-one (scalar: 1, r, .., r, 1)', p, z3.Implies(z3.And(0 <= tt, tt <= d), rk(tt) == rk0(tt)), axioms=AXS, mode='ematch')
+        U.post('core-k-has-shape-(r_k, n_k, r_k+1)', p, z3.Implies(z3.And(0 <= tt, tt < d), dims(R_[tt], tt, rk0)), axioms=AXS, mode='ematch')
+        shapes = z3.ForAll([t], z3.Implies(z3.And(0 <= t, t < d), dims(R_[t], t, rk0)), patterns=[R_[t]])
+        U.post('well-formed-when-the-boundary-ranks-are-1', list(U.pre) + [shapes, d >= 2, rk0(z3.IntVal(0)) == 1, rk0(d) == 1], T.wf(R_, d),
+               axioms=AXS, mode='ematch')
+        U.post('every-slice-is-the-slice-of-draw-k-plus-the-rectangular-identity', p,
+               z3.Implies(z3.And(0 <= tt, tt < d), slices_ok(R_[tt], tt, gid, rk)), axioms=AXS, mode='ematch')
+        U.post('argument-lists-are-not-modified', p, z3.BoolVal(p.heap[nref.oid].arr is narr and p.heap[nref.oid].n is d and
+                                                                (rl is None or (p.heap[rv.oid].arr is rl))))
+        U.canary('canary-no-draws', p, Z(p.ghost.get('ndraw', z3.IntVal(0))) == 0, axioms=AXS)
+    # the noise-free part: any tensor E whose slices are np.eye(r_k, r_k+1) (ranks >= 1, boundary ranks 1) is the all-ones tensor
+    E = z3.Const('E', T.TT)
+    ix = z3.Const('ix', T.IDX)
+    rr = z3.Const('rr', T.IDX)
+    hyp = [d >= 1, rr[0] == 1, rr[d] == 1, z3.ForAll([t], z3.Implies(z3.And(0 <= t, t <= d), rr[t] >= 1), patterns=[rr[t]]),
+           z3.ForAll([t, q_], z3.Implies(z3.And(0 <= t, t < d), T.sl(E[t], q_) == X.eyer(rr[t], rr[t + 1])), patterns=[T.sl(E[t], q_)])]
+    Q = lambda k: T.chain(E, ix, k) == X.eyer(1, rr[k + 1])
+    U.lemma('chain-of-identity-slices-is-the-1-x-r-identity-row.base', hyp, Q(z3.IntVal(0)), axioms=AXS, kind='lemma-base')
+    U.lemma('chain-of-identity-slices-is-the-1-x-r-identity-row.step', hyp + [kk >= 1, kk < d, Q(kk - 1)], Q(kk), axioms=AXS, kind='lemma-step')
+    U.post('noise-free-part-is-the-all-ones-tensor', hyp + [Q(d - 1)], T.ent(T.chain(E, ix, d - 1), 0, 0) == 1, axioms=AXS, mode='ematch')
+
+
+for _rk in ('number', 'list'):
+    for _sk in ('int', 'none', 'generator'):
+        def _mk(rk=_rk, sk=_sk):
+            @unit(f'tensors.rand_stab.{rk}.seed_{sk}', props=('C19', 'C10', 'C11'))
+            def u(U):
+                _rand_stab_unit(U, rk, sk)
+        _mk()
+
+
+# ----------------------------------------------------------------------------------------------
+# sample.sample_rand  (C14: "all samplers return integer arrays of the requested shape inside the tensor bounds";  C10)
+#
+# Proved for every d >= 1, mode sizes >= 1, m >= 0 (int or float, truncated), seed None / int / Generator: the result is the integer
+# matrix of shape (int(m), d); I[t, k] lies in [0, n_k); column k is draw number k of the generator returned by the single call
+# _rand(seed): choice(arange(n_k), int(m)) with replacement - d draws in the order of the modes (C10); n is not modified.
+# Not covered: uniformity / independence of the draws (bounded suite C14).
+
+def _sample_rand_unit(U, nkind, mkind, skind):
+    d = z3.Int('d')
+    narr = z3.Const('n', T.IDX)
+    t = z3.Int('t!sr')
+    fn = U.func('sample', 'sample_rand')
+    ex = U.executor(fn, callees={'utils._rand': logging_rand})
+    st = U.state()
+    nref = st.alloc(VSeq(narr, d, lambda x: x, tag='int')) if nkind == 'list' else X.ivec(d, narr)
+    m0 = z3.Int('m') if mkind == 'int' else z3.Real('m')
+    mi = m0 if mkind == 'int' else trunc(m0)
+    seed = {'int': z3.Int('seed'), 'none': NONE, 'generator': R.VGen('caller')}[skind]
+    st.vars.update(n=nref, m=m0, seed=seed)
+    sizes = z3.ForAll([t], z3.Implies(z3.And(0 <= t, t < d), narr[t] >= 1), patterns=[narr[t]])
+    res = U.run(ex, st, pre=[d >= 1, m0 >= 0, sizes])
+    U.assumed.append('utils._rand (unit utils._rand)')
+    U.cover('precondition-satisfiable', U.pre)
+    for p, o in res:
+        if o.kind != 'return':
+            U.post('no-exception', p, False)
+            continue
+        rcalls, log = p.ghost.get('randcalls', []), p.ghost.get('drawlog', [])
+        U.post('seed-goes-through-_rand-exactly-once', p, z3.BoolVal(len(rcalls) == 1 and rcalls[0][0] is seed))
+        I = p.deref(o.value)
+        ok = isinstance(I, VArr) and I.ndim == 2 and I.tag == 'imat'
+        U.post('result-is-the-matrix-of-the-drawn-indices', p, z3.BoolVal(ok))
+        U.post('one-family-of-draws: one per mode', p, z3.BoolVal(len(log) == 1 and 'family' in log[0]))
+        if not (ok and len(rcalls) == 1 and len(log) == 1 and 'family' in log[0]):
+            continue
+        g, dr = rcalls[0][1], log[0]
+        j, cnt = dr['family']
+        if skind == 'generator':
+            U.post('a-generator-object-is-used-as-it-is', p, z3.BoolVal(g is seed))
+        U.post('integer-array-of-shape-(m,d), one row per sample', p, z3.And(z3.BoolVal(I.dtype == 'i' and I.transposed), Z(I.shape[0]) == mi, Z(I.shape[1]) == d))
+        if not I.transposed:
+            continue
+        U.post('every-index-lies-inside-its-mode', p, z3.Implies(z3.And(0 <= tt, tt < mi, 0 <= kk, kk < d),
+                                                                 z3.And(0 <= X.imat_entry(I, tt, kk), X.imat_entry(I, tt, kk) < narr[kk])))
+        U.post('the-draws-come-from-the-generator-returned-by-_rand', p, z3.BoolVal(dr['gen'] is g))
+        U.post('column-k-is-draw-number-k: choice(arange(n_k), m) with replacement', p,
+               z3.And(z3.BoolVal(dr['method'] == 'choice' and dr['params'][1] is False and I.rows is dr['out'] and len(dr['shape']) == 1),
+                      cnt == d, Z(dr['shape'][0]) == mi,
+                      z3.Implies(z3.And(0 <= kk, kk < d), z3.And(z3.substitute(dr['idx'], (j, kk)) == kk, z3.substitute(dr['params'][0], (j, kk)) == narr[kk]))))
+        U.post('exactly-d-draws', p, Z(p.ghost.get('ndraw', z3.IntVal(0))) == d)
+        if nkind == 'list':
+            U.post('argument-list-is-not-modified', p, z3.BoolVal(p.heap[nref.oid].arr is narr and p.heap[nref.oid].n is d))
+        U.canary('canary-all-indices-zero', p, z3.Implies(z3.And(0 <= tt, tt < mi, 0 <= kk, kk < d), X.imat_entry(I, tt, kk) == 0))
+
+
+for _nk, _mk_, _sk in (('list', 'int', 'int'), ('list', 'float', 'none'), ('array', 'int', 'generator'), ('list', 'int', 'generator')):
+    def _mk(nk=_nk, mk=_mk_, sk=_sk):
+        @unit(f'sample.sample_rand.{nk}.m_{mk}.seed_{sk}', props=('C14', 'C10'))
+        def u(U):
+            _sample_rand_unit(U, nk, mk, sk)
+    _mk()
+
+
+# ----------------------------------------------------------------------------------------------
+# utils._range, sample._sample_core_first: small helpers of sample_square (shape level)
+
+@unit('utils._range', props=('C14',))
+def u_range(U):
+    """_range(n): the column 0..n-1 of shape (n, 1)."""
+    fn = U.func('utils', '_range')
+    ex = U.executor(fn)
+    st = U.state()
+    n = z3.Int('n')
+    st.vars.update(n=n)
+    res = U.run(ex, st, pre=[n >= 1])
+    U.cover('precondition-satisfiable', U.pre)
+    for p, o in res:
+        v = p.deref(o.value) if o.kind == 'return' else None
+        ok = isinstance(v, VArr) and v.ndim == 2
+        U.post('returns-a-matrix', p, z3.BoolVal(ok))
+        if ok:
+            U.post('integer-column-of-shape-(n,1)', p, z3.And(z3.BoolVal(v.dtype == 'i'), Z(v.shape[0]) == n, Z(v.shape[1]) == 1))
+            U.canary('canary-empty', p, Z(v.shape[0]) == 0)
+
+
+def call_range(ex, st, args, kwargs, node):
+    n = ex.need_num(st, args[0], node)
+    ex.oblige(st, 'call-pre', '_range: n >= 1', Z(n) >= 1, node)
+    return VArr((n, 1), None, None, 'i')
+
+
+def core_first_post(Q, I, m, out):
+    """(Q[ind, :], I[ind, :]) for m drawn row numbers"""
+    return isinstance(out, VTuple) and len(out.items) == 2 and all(isinstance(x, VArr) and x.ndim == 2 for x in out.items), \
+        lambda a, b: z3.And(Z(a.shape[0]) == m, Z(a.shape[1]) == Z(Q.shape[1]), Z(b.shape[0]) == m, Z(b.shape[1]) == Z(I.shape[1]))
+
+
+@unit('sample._sample_core_first', props=('C14', 'C10'))
+def u_core_first(U):
+    """_sample_core_first(Q, I, m, rand): exactly one draw, from the generator that was passed in: choice(rows of Q, size=m, p=.., replace=True);
+    returns the m selected rows of Q and of I.  Not covered: that p is the vector of normalised squared row norms (bounded suite C14)."""
+    fn = U.func('sample', '_sample_core_first')
+    ex = U.executor(fn, lenient=True)
+    ex.misc_shapes = True
+    st = U.state()
+    n, r, c, m = z3.Ints('n r c m')
+    Q, I = VArr((n, r), None, None, 'f'), VArr((n, c), None, None, 'i')
+    g = R.VGen('caller')
+    st.vars.update(Q=Q, I=I, m=m, rand=g)
+    res = U.run(ex, st, pre=[n >= 1, r >= 1, c >= 1, m >= 0])
+    U.cover('precondition-satisfiable', U.pre)
+    for p, o in res:
+        if o.kind != 'return':
+            U.post('no-exception', p, False)
+            continue
+        log = p.ghost.get('drawlog', [])
+        U.post('exactly-one-draw', p, z3.BoolVal(len(log) == 1))
+        if len(log) != 1:
+            continue
+        dr = log[0]
+        U.post('the-draw-comes-from-the-generator-that-was-passed-in', p, z3.BoolVal(dr['gen'] is g))
+        U.post('it-is-choice(rows of Q, size=m, p=..)-with-replacement', p,
+               z3.And(z3.BoolVal(dr['method'] == 'choice' and dr['params'][1] is True and len(dr['shape']) == 1), dr['params'][0] == n, Z(dr['shape'][0]) == m))
+        ok, shp = core_first_post(Q, I, m, o.value)
+        U.post('returns-two-matrices', p, z3.BoolVal(ok))
+        if ok:
+            U.post('m-selected-rows-of-Q-and-of-I', p, shp(*o.value.items))
+            U.post('index-rows-stay-integer', p, z3.BoolVal(o.value.items[1].dtype == 'i'))
+            U.canary('canary-no-rows', p, Z(o.value.items[0].shape[0]) == 0)
+
+
+def call_core_first(ex, st, args, kwargs, node):
+    if kwargs or len(args) != 4:
+        raise M.Unsupported('_sample_core_first calling pattern')
+    Q, I, m, g = st.deref(args[0]), st.deref(args[1]), args[2], args[3]
+    if not (isinstance(Q, VArr) and Q.ndim == 2 and isinstance(I, VArr) and I.ndim == 2 and isinstance(g, R.VGen) and M.is_intsort(m)):
+        raise M.Unsupported('_sample_core_first call-site contract: (matrix, matrix, int, generator)')
+    ex.oblige(st, 'call-pre', '_sample_core_first: non-empty Q, as many index rows, m >= 0',
+              z3.And(Z(Q.shape[0]) >= 1, Z(I.shape[0]) == Z(Q.shape[0]), Z(m) >= 0), node)
+    X.log_draw(st, g, 'choice', (Z(Q.shape[0]), True), [m], ex.fresh('ind', IA))
+    st.ghost['corefirst'] = st.ghost.get('corefirst', []) + [dict(gen=g, rows=Z(Q.shape[0]), m=m)]
+    return VTuple([VArr((m, Q.shape[1]), None, None, 'f'), VArr((m, I.shape[1]), None, None, I.dtype)])
+
+
+# ----------------------------------------------------------------------------------------------
+# sample.sample_square  (C14 "integer arrays of the requested shape", C10 "given a generator object it draws from that object only")
+#
+# Control / shape tier (lenient: values of Q, norms, the einsum are not interpreted).  Proved for every well-formed Y (d >= 2),
+# m >= 1, m_fact >= 1, any max_rep, float_cf=None, unique in {False, True}, seed int / Generator:
+#   * _rand is called once with the seed; the generator it returns is the one handed to _sample_core_first, the one every
+#     per-row conditional draw choice(n_k, p=..) comes from (exactly one per row and mode, index inside the mode) and - for unique
+#     sampling - the one that shuffles the rows (the global np.random is not used: the pinned defect of C10);
+#   * a direct return gives an integer array of shape (m, d); unique=False never raises;
+#   * ValueError is the only exception, raised iff unique and fewer than m distinct rows and (max_rep < 0 or m_fact > 10^6) -
+#     with at least m distinct rows (and always for unique=False) the call returns directly;
+#   * the retry is sample_square(Y, m, True, seed, 2*m_fact, max_rep-1, float_cf=float_cf): same tensor, same seed object, and it
+#     happens only while max_rep >= 0, so the recursion ends after at most max_rep + 1 retries.
+# Not covered (bounded suite C14): index bounds of the returned array and distinctness of its rows (the rows are filled through
+# views, which ttvc does not model), the chain of conditional probabilities, float_cf, what a retry returns.
+
+def _sample_square_unit(U, unique, skind):
+    fn = U.func('sample', 'sample_square')
+    AXQ = T.axioms('shape', 'mulI')
+
+    def call_self(ex, st, args, kwargs, node):
+        st.ghost['recursion'] = st.ghost.get('recursion', []) + [(list(args), dict(kwargs))]
+        out = VArr((args[1], st.ghost['d_']), None, None, 'i')
+        out.from_retry = True
+        return out
+
+    def shapes(s):
+        I, Q, Zs, m1 = s.vars['I'], s.vars['Q'], s.deref(s.vars['Z']), s.vars['m1']
+        if not (isinstance(I, VArr) and I.ndim == 2 and isinstance(Q, VArr) and Q.ndim == 2 and isinstance(Zs, VSeq)):
+            raise M.ContractMismatch('sample_square: I / Q are not matrices, or Z is not a TT list')
+        return I, Q, Zs, Z(m1)
+
+    def inv_outer(ex, s, j):
+        I, Q, Zs, m1 = shapes(s)
+        return [('index-matrix-keeps-shape-(m1,d)', z3.And(Z(I.shape[0]) == m1, Z(I.shape[1]) == Zs.n)),
+                ('one-partial-product-row-per-sample-of-the-width-of-the-next-left-rank', z3.And(Z(Q.shape[0]) == m1, Z(Q.shape[1]) == T.d2(Zs.arr[j])))]
+
+    def reset_log(ex, h, pre, j):
+        h.ghost['ndraw'] = ex.fresh_int('ndraw')
+        h.ghost['drawlog'] = []
+
+    def inv_inner(ex, s, i):
+        return [('still-inside-the-row-loop', z3.BoolVal(True))]
+
+    def inner_end(ex, s, o, i):
+        log = s.ghost.get('drawlog', [])
+        g = s.vars.get('rand')
+        ok = len(log) == 1 and log[0]['gen'] is g and log[0]['method'] == 'choice' and log[0]['shape'] == [] and log[0]['params'][1] is True
+        ex.oblige(s, 'post', 'every-row-and-mode-takes-exactly-one-conditional-draw-choice(n, p=..)-from-the-seeded-generator', z3.BoolVal(ok), None,
+                  assume=False)
+        if ok:
+            Zs = s.deref(s.vars['Z'])
+            k = s.ghost['_j0'] + 1
+            ex.oblige(s, 'post', 'the-draw-is-over-the-indices-of-the-current-mode', log[0]['params'][0] == T.d1(Zs.arr[k]), None, assume=False)
+            ex.oblige(s, 'post', 'the-drawn-index-is-written-to-the-column-of-the-current-mode', Z(s.vars['di']) == k, None, assume=False)
+
+    loops = {0: {'inv': inv_outer, 'havoc_hook': reset_log}, 1: {'inv': inv_inner, 'havoc_hook': reset_log, 'body_end': inner_end}}
+    ex = U.executor(fn, loops=loops, axioms=AXQ, lenient=True,
+                    callees={'utils._rand': logging_rand, 'utils._range': call_range, 'sample._sample_core_first': call_core_first,
+                             'sample.sample_square': call_self})
+    ex.misc_shapes = True
+    ex.mode = 'ematch'
+    st = U.state()
+    Y, arr, d = S.tt_param(st, 'Y', z3.Int('d'))
+    m, m_fact, max_rep = z3.Ints('m m_fact max_rep')
+    seed = {'int': z3.Int('seed'), 'generator': R.VGen('caller')}[skind]
+    st.ghost['d_'] = d
+    st.vars.update(Y=Y, m=m, unique=unique, seed=seed, m_fact=m_fact, max_rep=max_rep, float_cf=NONE)
+    res = U.run(ex, st, pre=[T.wf(arr, d), m >= 1, m_fact >= 1])
+    U.assumed.extend(['utils._rand (unit utils._rand)', 'utils._range (unit utils._range)', 'sample._sample_core_first (unit sample._sample_core_first)',
+                      'transformation.orthogonalize (units transformation.orthogonalize*)'])
+    U.cover('precondition-satisfiable', U.pre, axioms=AXQ)
+    nret = 0
+    for p, o in res:
+        rcalls, rec, cf, log = p.ghost.get('randcalls', []), p.ghost.get('recursion', []), p.ghost.get('corefirst', []), p.ghost.get('drawlog', [])
+        U.post('seed-goes-through-_rand-exactly-once', p, z3.BoolVal(len(rcalls) == 1 and rcalls[0][0] is seed))
+        if len(rcalls) != 1:
+            continue
+        g = rcalls[0][1]
+        if skind == 'generator':
+            U.post('a-generator-object-is-used-as-it-is', p, z3.BoolVal(g is seed))
+        U.post('the-first-mode-is-drawn-by-_sample_core_first-from-that-generator', p,
+               z3.And(z3.BoolVal(len(cf) == 1 and cf[0]['gen'] is g), (Z(cf[0]['m']) == (T.mul_canon(m_fact, m) if unique else m)) if len(cf) == 1 else False,
+                      (cf[0]['rows'] == T.d1(p.deref(p.vars['Z']).arr[0])) if len(cf) == 1 else False), axioms=AXQ, mode='ematch')
+        nu = p.ghost.get('nunique', [])
+        U.post('distinct-rows-are-taken-once-iff-unique', p, z3.BoolVal(len(nu) == (1 if unique else 0)))
+        if len(nu) != (1 if unique else 0):
+            continue
+        u = nu[0] if unique else None          # number of distinct rows among the m_fact * m samples
+        few = z3.And(u < m, z3.Or(max_rep < 0, m_fact > 1000000)) if unique else z3.BoolVal(False)
+        if o.kind == 'raise':
+            U.raise_iff('raises-ValueError', p, o.exc == 'ValueError')
+            U.raise_iff('raises-only-if-unique-with-fewer-than-m-distinct-rows-and-no-retry-left', p, few, axioms=AXQ, mode='ematch')
+            continue
+        out = p.deref(o.value)
+        if getattr(out, 'from_retry', False):
+            (a, kw), = rec if len(rec) == 1 else ((None, None),)
+            okc = a is not None and len(a) == 6 and set(kw) == {'float_cf'}
+            U.post('the-retry-is-one-recursive-call-with-six-positional-arguments-and-float_cf', p, z3.BoolVal(bool(okc and unique)))
+            if okc:
+                U.post('retry-with-the-same-tensor-the-same-m-and-the-same-seed-object', p,
+                       z3.And(z3.BoolVal(a[0] is Y and a[3] is seed and a[2] is True and kw['float_cf'] is NONE), Z(a[1]) == m))
+                U.post('retry-doubles-m_fact-and-counts-max_rep-down', p, z3.And(Z(a[4]) == 2 * m_fact, Z(a[5]) == max_rep - 1))
+                U.post('retry-only-with-too-few-distinct-rows-and-while-max_rep >= 0 (termination)', p,
+                       z3.And(u < m, max_rep >= 0, m_fact <= 1000000), axioms=AXQ, mode='ematch')
+            continue
+        nret += 1
+        ok = isinstance(out, VArr) and out.ndim == 2
+        U.post('returns-a-matrix', p, z3.BoolVal(ok))
+        if not ok:
+            continue
+        U.post('integer-array-of-shape-(m,d)', p, z3.And(z3.BoolVal(out.dtype == 'i'), Z(out.shape[0]) == m, Z(out.shape[1]) == d), axioms=AXQ, mode='ematch')
+        U.post('no-retry-on-this-path', p, z3.BoolVal(len(rec) == 0))
+        if unique:
+            U.raise_iff('returns-directly-only-with-at-least-m-distinct-rows', p, u >= m, axioms=AXQ, mode='ematch')
+        if unique:
+            U.post('the-rows-are-shuffled-by-the-seeded-generator (not by the global one)', p,
+                   z3.BoolVal(len(log) >= 1 and log[-1]['method'] == 'shuffle' and log[-1]['gen'] is g))
+        else:
+            U.post('no-shuffle-without-unique', p, z3.BoolVal(all(e['method'] != 'shuffle' for e in log)))
+        U.canary('canary-no-samples', p, Z(out.shape[0]) == 0, axioms=AXQ)
+    U.post('a-direct-return-path-exists', U.pre, z3.BoolVal(nret >= 1))
+
+
+for _un in (False, True):
+    for _sk in ('int', 'generator'):
+        def _mk(un=_un, sk=_sk):
+            @unit(f'sample.sample_square.{"unique" if un else "plain"}.seed_{sk}', props=('C14', 'C10'))
+            def u(U):
+                _sample_square_unit(U, un, sk)
+        _mk()
+
+
+# ----------------------------------------------------------------------------------------------
+# stat.cdf_getter  (C18: "the empirical-CDF helper is the right-continuous step function of its sample")
+#
+# For every sample x of length N >= 1 and every real z the returned function gives  F(z) = #{k < N : x_k <= z} / N
+# (cntle: spec function "number of elements <= z"; "<=" makes the step function right-continuous), hence 0 below the smallest and 1
+# from the largest sample point on.  NumPy facts used (mx_misc): sort = ascending rearrangement of the same multiset, linspace,
+# np.r_, searchsorted(side='right') on an ascending vector; theory group 'cntle' links the insertion point to the count.
+# The argument list is not modified (the sort works on a copy).  Not covered: array-valued z, NaN / infinite samples, rounding of k/N.
+
+AXC = T.axioms('cntle')
+
+
+@unit('stat.cdf_getter', props=('C18',))
+def u_cdf_getter(U):
+    fn = U.func('stat', 'cdf_getter')
+    ex = U.executor(fn, axioms=AXC)
+    st = U.state()
+    N = z3.Int('N')
+    xarr = z3.Const('x', RA)
+    xref = st.alloc(VSeq(xarr, N, lambda t: t, tag='real'))
+    st.vars.update(x=xref)
+    res = U.run(ex, st, pre=[N >= 1])
+    U.cover('precondition-satisfiable', U.pre, axioms=AXC)
+    z = z3.Real('z')
+    for p, o in res:
+        if o.kind != 'return' or not isinstance(o.value, VFunc):
+            U.post('returns-a-function', p, False)
+            continue
+        U.post('argument-list-is-not-modified (sorted copy)', p, z3.BoolVal(p.heap[xref.oid].arr is xarr and p.heap[xref.oid].n is N))
+        q = p.copy()
+        val = o.value.handler(ex, q, [z], {}, fn.node)               # F(z) for an arbitrary real z
+        for kind, label, hyps, goal, lineno, trace in q.obl:
+            U.add(kind, 'cdf(z): ' + label, hyps, goal, axioms=AXC, where=f'stat.py:{lineno}', trace=trace)
+        del q.obl[:]
+        ss = q.ghost.get('searchsorted', [])
+        yv = q.vars.get('y')
+        ok = len(ss) == 1 and M.is_num(val) and X.is_vec1(yv) and getattr(yv, 'tail_linspace', None) is not None
+        U.post('one-search-in-the-sorted-sample-and-a-lookup-in-the-level-vector', q, z3.BoolVal(bool(ok)))
+        if not ok:
+            continue
+        i, ys = ss[0]['i'], yv.tail_linspace
+        cnt = X.cntle(xarr, N, z)
+        U.post('the-search-runs-over-the-sorted-copy-of-the-sample-for-the-argument-z', q,
+               z3.And(z3.BoolVal(getattr(q.vars.get('x'), 'tail', None) is not None and q.vars['x'].tail.sorted_from is xarr), ss[0]['z'] == z, ss[0]['n'] == N))
+        U.post('insertion-point-is-the-number-of-sample-points <= z', q, i == cnt, axioms=AXC)
+        U.post('value-is-level[count]: 0 for count 0, else the (count-1)-th of the N levels', q,
+               M.to_real(val) == z3.If(cnt == 0, 0, ys.t[cnt - 1]), axioms=AXC)
+        U.post('levels-run-from-1/N-to-1', q, z3.And(z3.BoolVal(z3.eq(ys.linspace[2], N)), ys.linspace[0] == 1 / z3.ToReal(N), ys.linspace[1] == 1))
+        # arithmetic: the k-th of the N equidistant levels 1/N .. 1 is (k+1)/N   (instance of the linspace relation, exact end points)
+        k = z3.Int('k')
+        U.post('level-k-is-(k+1)/N', [N >= 1, 0 <= k, k < N, X.linspace_fact(ys, k), ys.t[0] == 1 / z3.ToReal(N), z3.Implies(N >= 2, ys.t[N - 1] == 1)],
+               ys.t[k] * z3.ToReal(N) == z3.ToReal(k) + 1, qf=True)
+        lev = z3.ForAll([k], z3.Implies(z3.And(0 <= k, k < N), ys.t[k] * z3.ToReal(N) == z3.ToReal(k) + 1), patterns=[ys.t[k]])
+        U.post('F(z)-is-the-fraction-of-sample-points <= z', list(q.pc) + [lev], M.to_real(val) * z3.ToReal(N) == z3.ToReal(cnt), axioms=AXC)
+        srt = q.vars['x'].tail.t
+        U.post('0-below-the-smallest-sample-point', list(q.pc) + [lev], z3.Implies(z < srt[0], M.to_real(val) == 0), axioms=AXC)
+        U.post('1-from-the-largest-sample-point-on', list(q.pc) + [lev], z3.Implies(z >= srt[N - 1], M.to_real(val) == 1), axioms=AXC)
+        U.canary('canary-constant-zero', list(q.pc) + [lev], M.to_real(val) == 0, axioms=AXC)
+
+
+# ==============================================================================================
+# Hand-made mutants (MUT_BASE=/tmp/base tools/mut.sh <file> '<sed>' <unit>) and the NAMED obligation that reports each.
+# "undecided" = Unsupported / ContractMismatch (exit 2), listed where a natural mutant leaves the modelled subset.
+#
+# grid.grid_prep_opt.*  (grid.py)
+#   s/d is None or d <= 0/d is None or d < 0/                                   raise-iff.returns-only-if-the-dimension-is-known-for-a-number (refuted, d = 0)
+#   s/np.ones(d, dtype=kind) \* kind(opt)/np.ones(d, dtype=kind)/               post.every-element-is-the-option-value-of-its-dimension (refuted)
+#   s/opt.reshape((1, -1)), reps, axis=0/opt.reshape((1, -1)), d, axis=0/       post.shape-is-(reps,d) (refuted)
+#   s/d is None or d <= 0/d is None and d <= 0/                                 safety.comparison-not-None, call-pre.non-negative-dimension, raise-iff.returns-only-if-..
+#   s/opt = np.asanyarray(opt, dtype=kind)/opt = np.asanyarray(opt, dtype=float)/   post.dtype-is-the-requested-kind (+ element post for int lists)
+#   quiet (equivalent): `* kind(opt)` -> `* opt`;   undecided: np.full(d, kind(opt))
+# grid.grid_flat.*  (grid.py)
+#   s/order='F').T/order='C').T/                                                post.row-t-holds-the-mixed-radix-digits-of-t-first-index-fastest, row-0.., first-index-runs-fastest
+#   s/order='F').T/order='F')/                                                  post.one-row-per-multi-index-one-column-per-mode: shape (prod n, d)
+#   s/np.arange(k).reshape/np.arange(k+1).reshape/                              post.shape.., row-t.., every-index-lies-inside-its-mode
+#   s/indexing='ij'/indexing='xy'/  and  indexing dropped                       post.row-t-holds-the-mixed-radix-digits.., first-index-runs-fastest
+#   s/return np.arange(int(n))/return np.arange(int(n) + 1)/                    grid.grid_flat.number post.length-is-int(n)
+#   undecided: reshape((-1, d), order='F') without .T;  for k in n[::-1]
+# matrices.matrix_delta  (matrices.py)
+#   swap ind_col / ind_row in `G[0, ind_col[k], ind_row[k], 0] = 1.`            inv-keep.loop0.unit-cores-at-the-bit-pairs
+#   delete `Y[-1][0, ind_col[-1], ind_row[-1], 0] = v`                          lemma.slices-are-1x1-with-the-expected-entry(mdelta)
+#   s/    j = teneva._vector_index_prepare(q, j)/    pass/                      call-pre._vector_index_expand.., post.first-mode-index-carries-the-bits-of-i-second-those-of-j
+#   `= 1.` -> `= 2.`                                                            inv-keep.loop0.unit-cores-at-the-bit-pairs
+#   ind_row = _vector_index_expand(q, i)                                        post.first-mode-index-carries-the-bits-of-i-second-those-of-j
+#   Y[-1][0, ind_col[-1], ind_col[-1], 0] = v   /   Y[0][0, ind_col[0], ind_row[0], 0] = v     lemma.slices-are-1x1-with-the-expected-entry(mdelta)
+#   quiet (equivalent): G = np.zeros(..); G = G.copy()
+# tensors.poly.*  (tensors.py)
+#   last core [scale, _get*scale] swapped / `* scale` dropped                   inv-keep.loop3.filled-slices-have-the-pattern
+#   [0., 1.] -> [1., 1.] in the middle core                                     inv-keep.loop2.filled-slices-have-the-pattern
+#   (m + shift[j]) -> (m - shift[j])                                            inv-keep.loop1/2/3.filled-slices-have-the-pattern
+#   np.zeros((2, k, 1)) -> np.zeros((2, k, 2))                                  inv-init.loop3.core-keeps-its-pattern-shape
+#   first core [1., g] -> [g, 1.];  G[0, m, :] -> G[0, 0, :]                    inv-keep.loop1.filled-slices-have-the-pattern
+#   grid_prep_opt(shift, d) -> grid_prep_opt(shift, d-1)                        safety.array-index-in-range, post.shift-option-is-the-scalar-resp-the-list-element
+#   undecided: element-wise stores G[0, m, 0] = 1.; G[0, m, 1] = ..  (ContractMismatch);  `if j == d:` (G unbound)
+# tensors.rand_custom.*  (tensors.py)
+#   cores[ps[i]-1:ps[i+1]-1] -> cores[ps[i]:ps[i+1]]                            safety.slice-in-range, inv-keep.loop0.finished-cores-are-the-F-ordered-blocks-of-the-sample
+#   order='F' -> order='C';  (r[i], n[i], r[i+1]) -> (r[i+1], n[i], r[i])        inv-keep.loop0.finished-cores-are-the-F-ordered-blocks-of-the-sample
+#   [int(r)] * (d - 1) -> [int(r)] * d                                          post.rank-profile-is-the-requested-one, post.core-k-has-shape-(r_k, n_k, r_k+1)
+#   n * r[0:d] * r[1:d+1] -> n * r[0:d] * r[0:d]                                call-pre.reshape-preserves-size, lemma-step.offsets-are-1+partial-sums-of-the-core-sizes.step
+#   f(ps[d] - 1) -> f(ps[d])                                                    post.sampler-is-asked-for-the-total-number-of-entries
+#   ([1], n * ..) -> ([0], n * ..)                                              safety.slice-in-range, lemma-base.offsets-are-1+partial-sums-of-the-core-sizes.base
+# tensors.rand.* / tensors.rand_norm.*  (tensors.py)
+#   uniform(a, b, ..) -> uniform(b, a, ..);  normal(m, s, ..) -> normal(s, m, ..) / -> uniform(m, s, ..)    post.the-draw-is-<method>-with-the-parameters-in-the-documented-order
+#   _rand(seed) -> _rand()  /  _rand(_rand(seed))                               post.seed-goes-through-_rand-exactly-once (+ a-generator-object-is-used-as-it-is)
+#   rand_custom(n, r, f) -> rand_custom(n, n, f)                                call-pre.rand_custom: rank list of length d + 1 with entries >= 1
+#   size=size -> size=size+1                                                    call-pre.rand_custom: the sampler returns as many values as it was asked for
+#   undecided: np.random.uniform(..) (not in the model table; frames / C10 reports it);  rand = np.random.default_rng(seed)
+# tensors.rand_stab.*  (tensors.py)
+#   np.eye(r[k], r[k+1]) -> np.eye(r[k+1], r[k])                                call-pre.elementwise-shapes-agree
+#   normal(0., noise, ..) -> normal(noise, 0., ..)                              post.the-draw-is-normal(0, noise)-of-the-shape-of-the-core
+#   size=(r[k], n[k], r[k+1]) -> (r[k+1], n[k], r[k])                           inv-init.loop1.core-keeps-its-shape, post.the-draw-is-normal(0, noise)-of-the-shape-of-the-core
+#   range(n[k]) -> range(n[k]-1)                                                inv-keep.loop0.finished-cores-are-their-draw-plus-identity-slices
+#   += -> -= ;  G[:, p, :] -> G[:, 0, :]                                        inv-keep.loop1.slices-before-p-are-draw-plus-identity-the-others-still-the-draw
+#   _rand(seed) -> _rand()                                                      post.seed-goes-through-_rand-exactly-once
+# sample.sample_rand.*  (sample.py)
+#   .T dropped;  m -> m+1 in choice;  m = int(m) + 1                            post.integer-array-of-shape-(m,d), one row per sample (+ column-k-is-draw-number-k)
+#   np.arange(k) -> np.arange(k+1) / np.arange(d)                               post.every-index-lies-inside-its-mode, post.column-k-is-draw-number-k
+#   _rand(seed) -> _rand()                                                      post.seed-goes-through-_rand-exactly-once
+#   undecided: np.array([...]).T instead of np.vstack
+# sample.sample_square.*  (sample.py)
+#   rand.shuffle(I) -> np.random.shuffle(I)   (the pinned C10 defect)           post.the-rows-are-shuffled-by-the-seeded-generator (not by the global one)
+#   retry with seed -> None                                                     post.retry-with-the-same-tensor-the-same-m-and-the-same-seed-object
+#   retry with max_rep-1 -> max_rep                                             post.retry-doubles-m_fact-and-counts-max_rep-down
+#   rand.choice(n, p=norms) -> rand.choice(r2, p=norms)                         safety.row-index-in-range, post.the-draw-is-over-the-indices-of-the-current-mode
+#   max_rep < 0 -> max_rep < -1                                                 post.retry-only-with-too-few-distinct-rows-and-while-max_rep >= 0 (termination)
+#   _rand(seed) -> _rand()                                                      post.seed-goes-through-_rand-exactly-once
+#   _sample_core_first(.., m1, rand) -> (.., m, rand)                           inv-init.loop0.index-matrix-keeps-shape-(m1,d)
+#   I = I[:m] -> I[:m+1];  I.shape[0] < m -> <= m                               raise-iff.raises-only-if-unique-with-fewer-than-m-distinct-rows-and-no-retry-left
+#   enumerate(Z[1:], start=1) -> start=0                                        post.the-drawn-index-is-written-to-the-column-of-the-current-mode
+# stat.cdf_getter  (stat.py)
+#   'right' -> 'left'                                                           post.insertion-point-is-the-number-of-sample-points <= z, post.F(z)-is-the-fraction-..
+#   `- 1` dropped                                                               safety.cdf(z): array-index-in-range, post.value-is-level[count]..
+#   linspace(1./len(x), ..) -> linspace(0, ..);  len(x) -> len(x) + 1            post.levels-run-from-1/N-to-1, post.level-k-is-(k+1)/N
+#   np.r_[0, y] -> np.r_[1, y]                                                  post.value-is-level[count].., post.0-below-the-smallest-sample-point
+#   undecided: x.sort() dropped (searchsorted on a vector that is not known to be ascending)
